@@ -35,6 +35,16 @@ MUTANTS = {"keep_orphans": "XPoolResolvesInStore", "no_reload": "XViewIsWindow",
 _LOCK = threading.Lock()
 
 
+_T0 = [None]
+
+
+def lap(what):
+    import time
+    if _T0[0] is None:
+        _T0[0] = time.time()
+    V.log("[C12 growth-node] %s at %.0fs" % (what, time.time() - _T0[0]))
+
+
 def _wd(sub):
     return V.workdir(PID, os.path.join("growth_node", sub))
 
@@ -133,6 +143,8 @@ def validate(c, tag, doc, meta, stats):
             stats["events"] += len(events)
             if until != BIG:
                 stats["events_chain_side_only"] += max(0, len(events) + 2 - until)
+            else:
+                stats["uncut"].append(tag)
             return clean
         r = _rejected_record(res)
         if r is None:
@@ -190,7 +202,9 @@ def phase_mc(c, tier, g):
     if tier == "quick":
         cfgs = ["MC_Node_q.cfg"]
     else:
-        cfgs = ["MC_Node_3x.cfg", "MC_Node_4.cfg", "MC_Node_4c.cfg"]
+        # chain universe with truncation / restart / removal / lagging submissions (3 blocks), and 4 blocks in the chain
+        # or in the conflict universe (alternating with the seed)
+        cfgs = ["MC_Node_3x.cfg", "MC_Node_4.cfg" if V.seed() % 2 else "MC_Node_4c.cfg"]
     with cf.ThreadPoolExecutor(max_workers=3) as ex:
         # no per-action coverage statistics: they cost a factor of 6 on this model (1 M states would take an hour); the
         # vacuity guards are the state counts and, in the thorough tier, the reachability probes that must be violated
@@ -205,6 +219,7 @@ def phase_mc(c, tier, g):
         c.add_tlc(res, "growth:" + cfg)
         g["mc"].append({"cfg": cfg, "distinct": res["distinct"], "generated": res["generated"], "wall_s": res["wall_s"]})
     g["composed_invariants"] = MC_INV
+    lap("model checking")
     if tier == "thorough":
         # vacuity probes (each must be violated) and self-tests of the composed invariants
         jobs = [("MC_Node_%s.cfg" % v.lower(), v) for v in VACUITY] + [("MC_Node_mut_%s.cfg" % m, inv) for m, inv in MUTANTS.items()]
@@ -215,6 +230,7 @@ def phase_mc(c, tier, g):
                 raise V.ToolError("growth-node self-test failed: %s -> %s (expected %s)" % (cfg, r["violated"], inv))
         g["reachability_probes_violated"] = VACUITY
         g["selftest_mutants_rejected_by"] = dict(MUTANTS)
+        lap("model self-tests")
 
 
 def selftest_corruptions(doc, g):
@@ -271,12 +287,14 @@ def selftest_corruptions(doc, g):
 def run_growth_node(c, tier):
     g = {}
     V.build_harness("g_node")
-    nh, steps = (2, 32) if tier == "quick" else (16, 110)
+    lap("start")
+    nh, steps = (2, 32) if tier == "quick" else (12, 100)
     with cf.ThreadPoolExecutor(max_workers=1) as bg:
         fut = bg.submit(phase_mc, c, tier, g)
         seeds = [(V.seed() * 1000 + 500 + i, steps, i) for i in range(nh)]
         with cf.ThreadPoolExecutor(max_workers=2 if tier == "quick" else 4) as ex:
             docs = list(ex.map(lambda a: run_history(a[0], a[1], a[2], a[2]), seeds))
+        lap("histories executed")
         keys = ("events", "txs", "accepted", "rejected", "removed", "blocks", "side_blocks", "reorgs", "detached_blocks",
                 "directed_reorgs", "truncations", "restarts_after_save_pool", "restarts_after_kill", "entries_reloaded_after_restart",
                 "own_templates_mined", "own_template_commits", "second_node_templates_mined", "second_node_template_commits",
@@ -288,12 +306,17 @@ def run_growth_node(c, tier):
                 tot[k] += d["summary"].get(k, 0) or 0
             if d["summary"].get("error"):
                 errors.append(d["summary"]["error"])
-        stats = {"events": 0, "events_chain_side_only": 0, "truncated": 0}
+        stats = {"events": 0, "events_chain_side_only": 0, "truncated": 0, "uncut": []}
         with cf.ThreadPoolExecutor(max_workers=2 if tier == "quick" else 4) as ex:
             list(ex.map(lambda x: validate(c, "node_%d" % x[0], x[1], {"source": "g_node", "args": x[1]["summary"]}, stats),
                         list(enumerate(docs))))
+        lap("histories validated")
         if tier == "thorough" and not c.violations:
-            selftest_corruptions(max(docs, key=lambda d: len(d["events"])), g)
+            whole = [d for i, d in enumerate(docs) if "node_%d" % i in stats["uncut"]]
+            if not whole:
+                raise V.ToolError("growth-node: no history was validated to its end on both sides")
+            selftest_corruptions(max(whole, key=lambda d: len(d["events"])), g)
+            lap("oracle self-test")
         for d in docs:
             evs = d["events"]
             c.case({"growth_node": d["summary"]["seed"], "profile": d["summary"]["profile"], "n": len(evs)},
@@ -330,7 +353,7 @@ def replay(c, p, tier):
             c.violation("growth-node/model/" + res["violated"], "model violation", p)
         return
     doc = {"universe": p["universe"], "genesis": p["genesis"], "ngen": p["ngen"], "events": p["events"]}
-    stats = {"events": 0, "events_chain_side_only": 0, "truncated": 0}
+    stats = {"events": 0, "events_chain_side_only": 0, "truncated": 0, "uncut": []}
     validate(c, "replayed", doc, p.get("meta"), stats)
     a = (p.get("meta") or {}).get("args")
     if a:
